@@ -581,6 +581,68 @@ fn run_route(c: &RouteCase) -> Outcome {
     o
 }
 
+/// The salt of a version 6 signature is binary data in front of the text: it is hashed as it
+/// is, whatever octets it holds, in text mode too.
+#[derive(Clone, Debug, Hash, Serialize, Deserialize)]
+pub struct SaltCase {
+    /// position of the special octet(s) in the 16-octet salt
+    pub pos: usize,
+    /// 0: LF, 1: CR, 2: CR LF (at pos, pos+1), 3: LF CR
+    pub what: u8,
+    pub doc: u8,
+}
+
+const SALT_DOCS: [&[u8]; 4] = [b"abc", b"\nabc", b"a\r\nb\nc\r", b""];
+
+fn run_salt(c: &SaltCase) -> Outcome {
+    use pgp::packet::{SignatureConfig, SignatureType, Subpacket, SubpacketData};
+    use pgp::types::KeyDetails;
+    let cert = common::cert(KeyKind::Ed25519V6, 1);
+    let key = &cert.primary_key;
+    let pk = key.public_key();
+    let mut salt: Vec<u8> = (0..16u8).map(|i| 0x41 + i).collect();
+    let special: &[u8] = [&b"\n"[..], b"\r", b"\r\n", b"\n\r"][c.what as usize];
+    for (i, b) in special.iter().enumerate() {
+        if c.pos + i < 16 {
+            salt[c.pos + i] = *b;
+        }
+    }
+    let doc = SALT_DOCS[c.doc as usize];
+    let what = format!("salt {} over document \"{}\"", hex::encode(&salt), esc(doc));
+    let mut o = Outcome::ok("salt-hashed-as-is");
+    for typ in [SignatureType::Text, SignatureType::Binary] {
+        let mut cfg = SignatureConfig::v6_with_salt(typ, key.algorithm(), HashAlgorithm::Sha256, salt.clone());
+        cfg.hashed_subpackets = vec![
+            Subpacket::regular(SubpacketData::SignatureCreationTime(pgp::types::Timestamp::from_secs(common::NOW))).expect("sp"),
+            Subpacket::regular(SubpacketData::IssuerFingerprint(key.fingerprint())).expect("sp"),
+        ];
+        let sig = match cfg.sign(key, &Password::empty(), doc) {
+            Ok(s) => s,
+            Err(e) => {
+                o.push("C14:v6-salt:sign-error", format!("{what}: {e}"));
+                continue;
+            }
+        };
+        if let Err(e) = sig.verify(pk, doc) {
+            o.push(format!("C14:v6-salt:{typ:?}-signature-does-not-verify"), format!("{what}: {e}"));
+        }
+        // against the digest definition: salt || canonical text || fields || trailer
+        use pgp::ser::Serialize as _;
+        let body = sig.to_bytes().expect("ser");
+        let kind = if typ == SignatureType::Text { crate::common::sigs::SigKind::DocText } else { crate::common::sigs::SigKind::DocBinary };
+        if let Ok(want) = crate::common::sigs::reference_digest(&body, kind, doc, &[], &[], &[]) {
+            if let Ok(d) = crate::reference::codec::decode_packet(2, &body) {
+                if let crate::reference::codec::Summary::Signature(si) = &d.summary {
+                    if body[si.left16.0..si.left16.1] != want[..2] {
+                        o.push(format!("C14:v6-salt:{typ:?}-digest-not-over-the-salt-as-is"), format!("{what}: left 16 bits {} vs RFC digest {}", hex::encode(&body[si.left16.0..si.left16.1]), hex::encode(&want[..2])));
+                    }
+                }
+            }
+        }
+    }
+    o
+}
+
 pub fn check(ctx: &Ctx) {
     let l = ctx.tier.pick(10, 12);
     let strings = common::all_strings(&ABC, l);
@@ -655,6 +717,21 @@ pub fn check(ctx: &Ctx) {
         rc.into_par_iter(),
         run_route,
     );
+    let mut salts = Vec::new();
+    for pos in 0..16usize {
+        for what in 0..4u8 {
+            for doc in 0..SALT_DOCS.len() as u8 {
+                salts.push(SaltCase { pos, what, doc });
+            }
+        }
+    }
+    ctx.run_space(
+        "v6_salt_is_binary",
+        true,
+        "version 6 text and binary signatures made with SignatureConfig::v6_with_salt for every salt that holds LF, CR, CR LF or LF CR at each of its 16 positions x 4 documents (incl. one starting with LF and the empty one): the signature verifies and its digest prefix is that of salt || canonical text || fields || trailer with the salt hashed as it is",
+        salts.into_par_iter(),
+        run_salt,
+    );
     let ws = common::all_strings(&ABC, ctx.tier.pick(4, 5));
     let mut bc = Vec::new();
     for &boundary in &[512usize, 1024, 1536, 8192, 16384] {
@@ -692,6 +769,7 @@ pub fn replay(space: &str, case: &Value) -> Option<Outcome> {
         "normalize_lines" => replay_as(case, run_in_memory),
         "sign_verify_pairs" => replay_as(case, run_pair),
         "builder_routes" => replay_as(case, run_route),
+        "v6_salt_is_binary" => replay_as(case, run_salt),
         "window_edges" => replay_as(case, run_boundary),
         _ => None,
     }
